@@ -30,6 +30,7 @@ fn main() {
         "atomicfs" => drivers::atomicfs::run(&a),
         "shardmgr" => drivers::shardmgr::run(&a),
         "reconstruct" => drivers::reconstruct::run(&a),
+        "parfor" => drivers::parfor::run(&a),
         other => {
             eprintln!("unknown driver {other}");
             std::process::exit(2);
